@@ -194,8 +194,9 @@ class RandomChooser(object):
 class PCTChooser(object):
     """priority based: highest priority enabled thread runs; d-1 random change points lower the running thread"""
 
-    def __init__(self, rng, depth=2, est_steps=60):
+    def __init__(self, rng, depth=2, est_steps=60, yield_labels=('sleep',)):
         self.rng = rng
+        self.yield_labels = yield_labels
         self.prio = {}
         self.change = set(rng.randrange(1, max(2, est_steps)) for _ in range(max(0, depth - 1)))
         self.low = 0
@@ -206,6 +207,11 @@ class PCTChooser(object):
                 self.prio[t.name] = self.rng.random() + 1.0
         step = len(s.trace)
         best = max(en, key=lambda t: self.prio[t.name])
+        if best.label in self.yield_labels and len(en) > 1:
+            # a polling loop: treat its sleep as a yield, otherwise a high-priority spinner starves the holder
+            self.low -= 1
+            self.prio[best.name] = self.low
+            best = max(en, key=lambda t: self.prio[t.name])
         if step in self.change:
             self.low -= 1
             self.prio[best.name] = self.low
@@ -237,23 +243,31 @@ class PrefixChooser(object):
     """follows a prefix of choice *indices*; afterwards runs non-preemptively (keep the current thread if it is
     enabled, else the first). Records for every step the number of alternatives and the index taken."""
 
-    def __init__(self, prefix):
+    def __init__(self, prefix, yield_labels=('sleep',)):
         self.prefix = list(prefix)
+        self.yield_labels = yield_labels
         self.log = []   # (n_enabled, chosen_index, current_index_or_None)
 
     def choose(self, s, en):
         k = len(self.log)
         cur = None
+        default = 0
         if s.current is not None:
             for i, t in enumerate(en):
                 if t is s.current:
-                    cur = i
+                    if t.label in self.yield_labels:
+                        # a polling loop's sleep is a voluntary yield: the next thread (round robin) runs at
+                        # no cost; any other choice (also: keep spinning) counts as one preemption
+                        default = (i + 1) % len(en)
+                    else:
+                        default = i
+                    cur = default
         if k < len(self.prefix):
             idx = self.prefix[k]
             if idx >= len(en):
                 idx = 0
         else:
-            idx = cur if cur is not None else 0
+            idx = default
         self.log.append((len(en), idx, cur))
         return en[idx]
 
